@@ -85,7 +85,7 @@ def comment_lines(draw, max_lines=3):
 
 
 VOCAB = ['(', ')', '/', ':r', ':', 'a', 'b', '"s"', '~1', '~e.2', ':r-of', '1', '"', '~', '#c', ',', '^', '\\', 'x~y', ':r~1', 'a~1',
-         '"b\\"', '"b\\\\"', '"a\\', '"\\"x"', '"', '"a"b"']
+         'b~\u0663', '~\u0663', '"b\\"', '"b\\\\"', '"a\\', '"\\"x"', '"', '"a"b"']
 
 
 @st.composite
